@@ -511,4 +511,156 @@ theorem pasteBuf_chars_wf (b : Buf) (h : WF b) (d : Clip) (hty : d.ty = .chars) 
       have : (d.text.length : Int) * n ≤ 0 := Int.mul_nonpos_of_nonneg_of_nonpos (by omega) (by omega)
       omega
     rw [hn0]; omega
+
+/-- Invariant of every Emacs session: cursors inside their texts, only CHARACTERS data on the
+    ring, ring not longer than `max_size`. -/
+def Inv (max : Nat) (s : St) : Prop :=
+  WF s.buf ∧ (∀ d ∈ s.ring, d.ty = .chars) ∧ s.ring.length ≤ max ∧ (∀ d, s.dbp = some d → WF d)
+
+theorem getData_chars (r : Ring) (h : ∀ d ∈ r, d.ty = .chars) : (getData r).ty = .chars := by
+  cases r with
+  | nil => rfl
+  | cons d r => exact h d (by simp)
+
+theorem setData_mem (max : Nat) (r : Ring) (d x : Clip) (h : x ∈ setData max r d) : x = d ∨ x ∈ r := by
+  unfold setData at h
+  have := List.mem_of_mem_take h
+  simpa using this
+
+theorem pushKill_inv (max : Nat) (r : Ring) (k : Kill) (acc : Acc) (h1 : ∀ d ∈ r, d.ty = .chars)
+    (h2 : r.length ≤ max) :
+    (∀ d ∈ pushKill max r k acc, d.ty = .chars) ∧ (pushKill max r k acc).length ≤ max := by
+  cases hp : k.push with
+  | false => rw [pushKill_nopush _ _ _ _ hp]; exact ⟨h1, h2⟩
+  | true =>
+    rw [pushKill_push _ _ _ _ hp]
+    refine ⟨?_, setData_length_le _ _ _⟩
+    intro d hd
+    rcases setData_mem _ _ _ _ hd with rfl | hd
+    · rfl
+    · exact h1 d hd
+
+theorem touch_wf (old new : Buf) (dbp : Option Buf) (h : ∀ d, dbp = some d → WF d) :
+    ∀ d, touch old dbp new = some d → WF d := by
+  unfold touch; split
+  · exact h
+  · intro d hd; cases hd
+
+theorem lineAfter_le (b : Buf) : (lineAfter b).length ≤ b.text.length - b.cur := by
+  unfold lineAfter Buf.after
+  exact Nat.le_trans (length_takeWhile_le' _ _) (by simp)
+
+theorem moveRight_wf (b : Buf) (h : WF b) (n : Int) : WF (moveRight b n) := by
+  unfold WF at *
+  unfold moveRight
+  split
+  · simp only; omega
+  · simp only
+    have := lineAfter_le b
+    omega
+
+theorem insertText_wf (b : Buf) (h : WF b) (d : Text) : WF (insertText b d) := by
+  unfold WF at *
+  simp [insertText, Buf.before, Buf.after]; omega
+
+theorem setCursor_wf (b : Buf) (v : Int) : WF (setCursor b v) := by
+  unfold WF setCursor; simp only; omega
+
+theorem rotate_mem (r : Ring) (d : Clip) : d ∈ rotate r ↔ d ∈ r := (rotate_perm r).mem_iff
+
+/-- **step_inv.**  Every key of the Emacs model preserves the invariant. -/
+theorem step_inv (rs : Char → Bool) (mx : Nat) (s : St) (h : Inv mx s) (arg : Arg) (cmd : Cmd) :
+    Inv mx (step rs mx s arg cmd) := by
+  obtain ⟨hwf, hty, hlen, hdbp⟩ := h
+  cases hko : killOf rs s.buf arg.val cmd with
+  | some k =>
+    obtain ⟨hb, hr⟩ := step_kill rs mx s arg cmd k hko
+    obtain ⟨_, hk2, _⟩ := killOf_ok rs s.buf hwf _ cmd k hko
+    obtain ⟨p1, p2⟩ := pushKill_inv mx s.ring k (accOf s arg cmd) hty hlen
+    refine ⟨by rw [hb]; exact hk2, by rw [hr]; exact p1, by rw [hr]; exact p2, ?_⟩
+    have : (step rs mx s arg cmd).dbp = touch s.buf s.dbp k.buf := by
+      cases cmd <;> simp [killOf] at hko <;> subst hko <;> simp [step, applyKill]
+    rw [this]; exact touch_wf _ _ _ hdbp
+  | none =>
+    cases cmd <;> simp [killOf] at hko
+    · -- yank
+      simp only [step, yank, pasteSt]
+      exact ⟨pasteBuf_chars_wf _ hwf _ (getData_chars _ hty) _, hty, hlen,
+        fun d hd => by cases hd; exact hwf⟩
+    · -- yank-pop
+      simp only [step, yankPop]
+      cases hd : s.dbp with
+      | none => exact ⟨hwf, hty, hlen, fun d h' => by simp at h'⟩
+      | some d =>
+        have hty' : ∀ x ∈ rotate s.ring, x.ty = .chars := fun x hx => hty x ((rotate_mem _ _).mp hx)
+        exact ⟨pasteBuf_chars_wf _ (hdbp d hd) _ (getData_chars _ hty') _, hty',
+          by rw [rotate_length]; exact hlen, fun d' h' => by cases h'; exact hdbp d hd⟩
+    · simp only [step]
+      exact ⟨moveRight_wf _ hwf _, hty, hlen, touch_wf _ _ _ hdbp⟩
+    · simp only [step]
+      exact ⟨moveRight_wf _ hwf _, hty, hlen, touch_wf _ _ _ hdbp⟩
+    · simp only [step]
+      exact ⟨insertText_wf _ hwf _, hty, hlen, touch_wf _ _ _ hdbp⟩
+    · simp only [step]
+      exact ⟨setCursor_wf _ _, hty, hlen, touch_wf _ _ _ hdbp⟩
+    · -- region
+      rename_i a b kill
+      simp only [step]
+      split
+      · split
+        · exact ⟨hwf, hty, hlen, hdbp⟩
+        · exact ⟨insertText_wf _ hwf _, hty, hlen, fun d h' => by cases h'⟩
+      · have hR : ∀ t, (∀ d ∈ setText mx s.ring t, d.ty = .chars) := by
+          intro t d hd
+          rcases setData_mem _ _ _ _ hd with rfl | hd
+          · rfl
+          · exact hty d hd
+        have hD : ∀ (c : Prop) [Decidable c] (d : Buf), (if c then s.dbp else none) = some d → WF d := by
+          intro c _ d hd
+          split at hd
+          · exact hdbp d hd
+          · cases hd
+        cases kill
+        · simp only [cutRegion, Bool.false_eq_true, if_false]
+          exact ⟨setCursor_wf _ _, hR _, setData_length_le _ _ _, hD _⟩
+        · simp only [cutRegion, if_true]
+          refine ⟨?_, hR _, setData_length_le _ _ _, hD _⟩
+          unfold WF
+          simp only [setCursor, List.length_append, List.length_take, List.length_drop]
+          omega
+
+/-- **run_inv.**  The invariant holds after every finite sequence of keys (all histories). -/
+theorem run_inv (rs : Char → Bool) (mx : Nat) (ops : List (Arg × Cmd)) :
+    ∀ s, Inv mx s → Inv mx (run rs mx s ops) := by
+  induction ops with
+  | nil => intro s h; exact h
+  | cons op ops ih =>
+    intro s h
+    simp only [run, List.foldl_cons]
+    exact ih _ (step_inv rs mx s h op.1 op.2)
+
+/-- **Kill fidelity after any history.**  Start from any state satisfying the invariant (e.g. an
+    empty ring), press any finite sequence of modelled keys, then any kill command with any
+    argument: the removed text put back at the kill point is the text before the kill, and (not a
+    repeat) it is exactly the new top of the ring; yanking right there restores the text. -/
+theorem kill_fidelity_in_every_history (rs : Char → Bool) (mx : Nat) (hmax : 0 < mx) (s0 : St)
+    (h0 : Inv mx s0) (ops : List (Arg × Cmd)) (arg : Arg) (cmd : Cmd) (k : Kill)
+    (hk : killOf rs (run rs mx s0 ops).buf arg.val cmd = some k) :
+    let s := run rs mx s0 ops
+    s.buf.text = reinsert k.buf.text k.buf.cur k.removed ∧
+    (k.push = true → accOf s arg cmd = .no →
+      getData (step rs mx s arg cmd).ring = { text := k.removed, ty := .chars } ∧
+      (step rs mx (step rs mx s arg cmd) .none .yank).buf.text = s.buf.text) := by
+  have hinv := run_inv rs mx ops s0 h0
+  obtain ⟨_, h1, _, _, h5⟩ := kill_puts_removed rs mx hmax _ hinv.1 arg cmd k hk
+  exact ⟨h1, fun hp ha => ⟨(h5 hp ha).1, yank_after_kill_restores rs mx hmax _ hinv.1 arg cmd k hk hp ha⟩⟩
+
+def exS7 : St := { buf := { text := "one two".toList, cur := 7 }, ring := [], dbp := none, prev := .other }
+example : Inv 3 exS7 := by
+  refine ⟨by decide, by simp [exS7], by decide, by simp [exS7]⟩
+example : (run (· = ' ') 3 exS7 [(.none, .wordRubout), (.none, .goto 0), (.none, .yank), (.none, .killLine), (.none, .yankPop)]).buf.text
+    = "two".toList ∧
+    (run (· = ' ') 3 exS7 [(.none, .wordRubout), (.none, .goto 0), (.none, .yank), (.none, .killLine), (.none, .yankPop)]).ring
+    = [⟨"one ".toList, .chars⟩, ⟨"two".toList, .chars⟩] := by decide
+
 end Ptk.C09
